@@ -80,13 +80,17 @@ def request(case):
 
 
 def impl(case):
-    return C.ok(B.enc_blocks(C.raw_split(case["t"])))
+    res = C.ok(B.enc_blocks(C.raw_split(case["t"])))
+    if C.entry_points_agree(case["t"]) is not None:
+        return res + " (entry-points-differ)"
+    return res
 
 
 def oracle(case):
     """derivation ground truth vs the real parser (only for cases that carry a derivation)"""
-    if "exp" not in case:
-        return None
+    f = C.entry_points_agree(case["t"])
+    if f or "exp" not in case:
+        return f
     import bibtexparser
     from bibtexparser.splitter import Splitter
     real = docgen.real_as_expected(Splitter(case["t"]).split().blocks)
